@@ -225,8 +225,9 @@ type csPlan struct {
 	rseed    uint64
 	chunks   int
 	yields   int
-	encEmpty bool // encrypt the empty payload instead of sending no body
-	chunked  bool // the body travels with undeclared length (ContentLength -1)
+	encEmpty bool   // encrypt the empty payload instead of sending no body
+	chunked  bool   // the body travels with undeclared length (ContentLength -1)
+	hb       hbPlan // how the protected handler treats the body (handler_test.go)
 }
 
 func drawCsPlan(t *simrt.Tape) csPlan {
@@ -252,6 +253,7 @@ func drawCsPlan(t *simrt.Tape) csPlan {
 	p.yields = t.Intn(3)
 	p.encEmpty = t.Chance(1, 8)
 	p.chunked = t.Chance(1, 4)
+	p.hb = drawHb(t)
 	return p
 }
 
@@ -297,7 +299,7 @@ type csRec struct {
 	respWant []byte
 	ran      int
 	th       time.Time
-	gotBody  []byte
+	hbSeen   // what the handler read from the body
 	t0, t1   time.Time
 	status   int
 }
@@ -329,9 +331,14 @@ func (w *csWorld) build(p csPlan, nowS int64) *csRec {
 	rec := &csRec{id: len(w.recs), plan: p}
 	w.recs = append(w.recs, rec)
 	tol := int64(w.srv.tolerance / time.Second)
-	rec.plain = (&prng{s: p.pseed}).bytes(p.size)
+	rec.plain = payloadOf(p.pseed, rec.id, p.size)
 	rec.aesKey = (&prng{s: p.kseed}).bytes(p.keyLen)
-	rec.respWant = (&prng{s: p.rseed}).bytes(p.rsize)
+	rec.respWant = payloadOf(p.rseed, rec.id+1000, p.rsize)
+	if p.crypt && p.chunked {
+		// this request ends in the known finding crypt-chunked-body-not-decrypted, which is recognised by
+		// what the handler read: the handler reads everything, and not after closing
+		rec.plan.hb.read, rec.plan.hb.closeAt = hbAll, 0
+	}
 	q := &rec.q
 	paths := w.paths()
 	q.method, q.path, q.query = csMethods[p.method], paths[p.path], csQueries[p.query]
@@ -603,10 +610,20 @@ func contentSecurity(r *simrt.Run, tier string) {
 	}
 	bypassProbe := t.Chance(1, 12)
 	nTasks, perTask := csSizes(t, tier)
+	// burst: 2-4 tasks issue their requests (almost) at the same instant, most of them honest and encrypted
+	burst := t.Chance(1, 3)
+	if burst {
+		nTasks = t.Range(2, 4)
+		r.Probe("cs-burst")
+	}
 	plans := make([][]csPlan, nTasks)
 	for i := range plans {
 		for j := 0; j < perTask; j++ {
-			plans[i] = append(plans[i], drawCsPlan(t))
+			p := drawCsPlan(t)
+			if burst {
+				overlapCsPlan(t, &p)
+			}
+			plans[i] = append(plans[i], p)
 		}
 	}
 	limitEncryptedChunked(t, plans)
@@ -624,7 +641,7 @@ func contentSecurity(r *simrt.Run, tier string) {
 		}
 		rec.ran++
 		rec.th = time.Now()
-		rec.gotBody, _ = io.ReadAll(req.Body)
+		readBody(r, rec, req.Body)
 		for i := 0; i < rec.plan.yields; i++ {
 			r.Yield()
 		}
@@ -633,7 +650,7 @@ func contentSecurity(r *simrt.Run, tier string) {
 	})
 	h := handler.ContentSecurityHandler(decs, w.srv.tolerance, w.srv.strict)(next)
 	r.Sample(map[string]any{"scenario": "handler.ContentSecurityHandler", "strict": w.srv.strict, "tolerance": w.srv.tolerance.String(),
-		"fingerprints": w.srv.fps, "tasks": nTasks, "requests_per_task": perTask, "first_task_plan": fmt.Sprintf("%+v", plans[0])})
+		"fingerprints": w.srv.fps, "burst": burst, "tasks": nTasks, "requests_per_task": perTask, "first_task_plan": fmt.Sprintf("%+v", plans[0])})
 	if r.Tracing() {
 		r.Logf("content-security server=%+v plans=%+v", w.srv, plans)
 	}
@@ -805,14 +822,14 @@ func (w *csWorld) checkDelivered(rec *csRec, rw *httptest.ResponseRecorder, v *c
 	}
 	if rec.q.chunked {
 		r.Probe("cs-chunked-valid-request-accepted")
-		if encrypted && !bytes.Equal(rec.plain, rec.q.body) && bytes.Equal(rec.gotBody, rec.q.body) {
+		if encrypted && !bytes.Equal(rec.plain, rec.q.body) && rec.readErr == nil && bytes.Equal(rec.gotBody, rec.q.body) {
 			w.finding(chunkedFinding, "%s: correctly signed request whose ENCRYPTED body travels with undeclared length (chunked upload, ContentLength -1): the handler received the ciphertext %s as sent, not the decrypted payload %s",
 				w.describe(rec, v), short(rec.gotBody), short(rec.plain))
 			return
 		}
 	}
-	if !bytes.Equal(rec.gotBody, want) {
-		r.Fail(w.pfx+"cs-body-mismatch", "%s: handler read body %s, want %s (encrypted=%v)", w.describe(rec, v), short(rec.gotBody), short(want), encrypted)
+	if cls, txt := w.bodyProblem(rec, want); cls != "" {
+		r.Fail(w.pfx+"cs-"+cls, "%s: %s (encrypted=%v)", w.describe(rec, v), txt, encrypted)
 		return
 	}
 	if rec.status != http.StatusOK {
@@ -905,6 +922,12 @@ func cryption(r *simrt.Run, tier string) {
 		limit = int64([]int{2048, 64, 24, 100000}[t.Intn(4)])
 	}
 	nTasks, perTask := csSizes(t, tier)
+	// burst: 2-4 tasks issue their requests (almost) at the same instant
+	burst := t.Chance(1, 2)
+	if burst {
+		nTasks = t.Range(2, 4)
+		r.Probe("crypt-burst")
+	}
 	type plan struct {
 		size, rsize  int
 		pseed, rseed uint64
@@ -913,13 +936,20 @@ func cryption(r *simrt.Run, tier string) {
 		encEmpty     bool
 		think        time.Duration
 		chunked      bool
+		hb           hbPlan
 	}
 	plans := make([][]plan, nTasks)
 	for i := range plans {
 		for j := 0; j < perTask; j++ {
-			plans[i] = append(plans[i], plan{size: payloadSizes[t.Intn(len(payloadSizes))], rsize: payloadSizes[t.Intn(len(payloadSizes))],
+			p := plan{size: payloadSizes[t.Intn(len(payloadSizes))], rsize: payloadSizes[t.Intn(len(payloadSizes))],
 				pseed: seedOf(t), rseed: seedOf(t), chunks: t.Range(1, 3), yields: t.Intn(3), encEmpty: t.Chance(1, 8), think: drawThink(t) / 4,
-				chunked: t.Chance(1, 4)})
+				chunked: t.Chance(1, 4), hb: drawHb(t)}
+			if burst {
+				cp := csPlan{hb: p.hb, crypt: true, size: p.size}
+				overlapCsPlan(t, &cp)
+				p.think, p.hb, p.size = cp.think, cp.hb, cp.size
+			}
+			plans[i] = append(plans[i], p)
 		}
 	}
 	if !t.Chance(1, 8) { // see limitEncryptedChunked: every body is encrypted here
@@ -936,7 +966,7 @@ func cryption(r *simrt.Run, tier string) {
 			return
 		}
 		rec.ran++
-		rec.gotBody, _ = io.ReadAll(req.Body)
+		readBody(r, rec, req.Body)
 		for i := 0; i < rec.plan.yields; i++ {
 			r.Yield()
 		}
@@ -949,7 +979,7 @@ func cryption(r *simrt.Run, tier string) {
 	} else {
 		h = handler.LimitCryptionHandler(limit, key)(next)
 	}
-	r.Sample(map[string]any{"scenario": "handler.CryptionHandler", "key_len": keyLen, "limit": limit, "tasks": nTasks, "requests_per_task": perTask,
+	r.Sample(map[string]any{"scenario": "handler.CryptionHandler", "key_len": keyLen, "limit": limit, "burst": burst, "tasks": nTasks, "requests_per_task": perTask,
 		"first_task_plan": fmt.Sprintf("%+v", plans[0])})
 	var tasks []*simrt.Task
 	for i := 0; i < nTasks; i++ {
@@ -959,21 +989,30 @@ func cryption(r *simrt.Run, tier string) {
 				if p.think > 0 {
 					r.Sleep(p.think)
 				}
-				rec := &csRec{id: len(w.recs), plan: csPlan{yields: p.yields, chunks: p.chunks}}
+				rec := &csRec{id: len(w.recs), plan: csPlan{yields: p.yields, chunks: p.chunks, hb: p.hb}}
 				w.recs = append(w.recs, rec)
-				rec.plain = (&prng{s: p.pseed}).bytes(p.size)
-				rec.respWant = (&prng{s: p.rseed}).bytes(p.rsize)
+				rec.plain = payloadOf(p.pseed, rec.id, p.size)
+				rec.respWant = payloadOf(p.rseed, rec.id+1000, p.rsize)
 				rec.q = wire{method: http.MethodPost, path: "/a/b", chunked: p.chunked}
+				if p.chunked {
+					// ends in the known finding crypt-chunked-body-not-decrypted, recognised by what the handler read
+					rec.plan.hb.read, rec.plan.hb.closeAt = hbAll, 0
+				}
 				if len(rec.plain) > 0 || p.encEmpty {
 					rec.q.body = []byte(std64.EncodeToString(ecbEncrypt(key, rec.plain)))
 				}
 				req := rec.q.request(context.WithValue(context.Background(), reqKey{}, rec))
 				rw := httptest.NewRecorder()
 				r.Ev("invoke", int64(rec.id), int64(len(rec.q.body)))
+				rec.t0 = time.Now()
 				h.ServeHTTP(rw, req)
+				rec.t1 = time.Now()
 				r.Ev("return", int64(rec.id), int64(rw.Code), int64(rec.ran))
 				r.Probe("oracle")
-				desc := fmt.Sprintf("request %d (payload %s -> body %s, limit %d)", rec.id, short(rec.plain), short(rec.q.body), limit)
+				desc := fmt.Sprintf("request %d (payload %s -> body %s, limit %d, in flight %s .. %s)", rec.id, short(rec.plain), short(rec.q.body), limit, stamp(rec.t0), stamp(rec.t1))
+				if r.Tracing() {
+					r.Logf("%s: handler %s; ran=%d status=%d read %s", desc, rec.plan.hb, rec.ran, rw.Code, short(rec.gotBody))
+				}
 				over := limit > 0 && int64(len(rec.q.body)) > limit
 				if over {
 					r.Probe("crypt-over-limit")
@@ -995,13 +1034,13 @@ func cryption(r *simrt.Run, tier string) {
 				}
 				if p.chunked {
 					r.Probe("crypt-chunked-request")
-					if len(rec.q.body) > 0 && !bytes.Equal(rec.plain, rec.q.body) && bytes.Equal(rec.gotBody, rec.q.body) {
+					if len(rec.q.body) > 0 && !bytes.Equal(rec.plain, rec.q.body) && rec.readErr == nil && bytes.Equal(rec.gotBody, rec.q.body) {
 						w.finding(chunkedFinding, "%s: the encrypted body travels with undeclared length (chunked upload, ContentLength -1): the handler received the ciphertext as sent, not the decrypted payload", desc)
 						continue
 					}
 				}
-				if !bytes.Equal(rec.gotBody, rec.plain) {
-					r.Fail("crypt-body-mismatch", "%s: handler read %s", desc, short(rec.gotBody))
+				if cls, txt := w.bodyProblem(rec, rec.plain); cls != "" {
+					r.Fail("crypt-"+cls, "%s: %s", desc, txt)
 					return
 				}
 				got := rw.Body.Bytes()
